@@ -22,7 +22,7 @@ def gen_case(rs, tier):
     cfg = gen.swarm(krng, tier)
     cfg["bad_tables"] = False
     if krng.random() < 0.5:
-        cfg["kinds"] = list(set(cfg["kinds"]) | {"mintrials", "exclude"})
+        cfg["kinds"] = sorted(set(cfg["kinds"]) | {"mintrials", "exclude"})
     ast = gen.gen_design(rng, cfg, tier)
     if ast is None:
         return None
